@@ -48,13 +48,16 @@ var hlslCfg = &execcheck.Config{
 var mslCfg = &execcheck.Config{
 	Check: "msl-hostile", Prefix: "msl.", Run: xrun.RunMSL, Features: hostileAll, NonTrivial: hostileEvents,
 	PreOpts: func(t *rapid.T) (map[string]string, func(*wref.Config)) {
+		// the index policy (function / private / workgroup data and values) and the buffer policy
+		// (storage and uniform data) are drawn independently
 		pol := []string{"restrict", "rzsw"}[rapid.IntRange(0, 1).Draw(t, "policy")]
-		o := map[string]string{"msl": []string{"1.2", "2.1", "3.0", "3.1"}[rapid.IntRange(0, 3).Draw(t, "msl")], "idx": pol, "buf": pol, "zeroinit": "1",
+		bufPol := []string{"restrict", "rzsw"}[rapid.IntRange(0, 1).Draw(t, "bufPolicy")]
+		o := map[string]string{"msl": []string{"1.2", "2.1", "3.0", "3.1"}[rapid.IntRange(0, 3).Draw(t, "msl")], "idx": pol, "buf": bufPol, "zeroinit": "1",
 			"bind": []string{"auto", "fake", "map"}[rapid.IntRange(0, 2).Draw(t, "bind")], "loopbound": strconv.Itoa(rapid.IntRange(0, 1).Draw(t, "loopbound"))}
 		if pol == "rzsw" {
-			return o, func(w *wref.Config) { w.ZeroOOBReads = true }
+			return o, func(w *wref.Config) { w.ZeroOOBReads = true; w.BufPolicy = bufPol }
 		}
-		return o, func(w *wref.Config) { w.ClampOOB = true }
+		return o, func(w *wref.Config) { w.ClampOOB = true; w.BufPolicy = bufPol }
 	},
 	Retry: []func(*wref.Config){func(w *wref.Config) { w.ClampNegToZero = true }},
 }
